@@ -113,8 +113,16 @@ poke(struct netbuf_write * W)
 	/* Sanity-check: We don't have a buffer in progress. */
 	assert(W->curr == NULL);
 
+	/* Discard empty buffers (left behind by zero-length writes). */
+	while ((WB = STAILQ_FIRST(&W->buffers))->datalen == 0) {
+		STAILQ_REMOVE_HEAD(&W->buffers, entries);
+		free(WB->buf);
+		free(WB);
+		if (STAILQ_EMPTY(&W->buffers))
+			return (0);
+	}
+
 	/* Start writing a buffer. */
-	WB = STAILQ_FIRST(&W->buffers);
 	if (W->ssl) {
 		if ((W->write_cookie = (netbuf_write_ssl_func)(W->ssl,
 		    WB->buf, WB->datalen, WB->datalen, writbuf, W)) == NULL)
